@@ -173,7 +173,15 @@ func parseDesc(s string) (desc, bool) {
 	return desc{f[0], key, chainOf(f[2]), typ, h, int32(r), b, ts}, true
 }
 
-func tsTime(ts int64) time.Time { return time.Unix(0, ts).UTC() }
+// zeroTS stands for Go's zero time.Time (what an absent CommitSig carries)
+const zeroTS = math.MinInt64
+
+func tsTime(ts int64) time.Time {
+	if ts == zeroTS {
+		return time.Time{}
+	}
+	return time.Unix(0, ts).UTC()
+}
 
 // signature bytes of a descriptor (ed25519 signing is deterministic, so Exec can rebuild them)
 func sigBytes(d desc) []byte {
@@ -858,7 +866,7 @@ func genCase(r *rand.Rand, maxN int) core.Case {
 		case r.Intn(2) == 0:
 			slots[i] = slot{3, v.addr, ts, desc{"V", v.key, chain, 2, h, rd, bid{}, ts}}
 		default:
-			slots[i] = slot{1, nil, 0, desc{tag: "E"}}
+			slots[i] = slot{1, nil, zeroTS, desc{tag: "E"}}
 		}
 	}
 	if b.hash != nil && !b.valid() { // descriptors must be signable
@@ -977,7 +985,23 @@ func genCase(r *rand.Rand, maxN int) core.Case {
 		note(mutHist, "none")
 	}
 
-	ops := []string{valsOp(vs), commitOp(h, rd, b, slots)}
+	vopts, copts := "", ""
+	// the set / the commit as decoded from their protobuf forms (only when they decode on this tree)
+	if r.Intn(3) == 0 && protoSetOK(vs) {
+		vopts = " via=proto"
+		if r.Intn(4) != 0 { // a falsified total_voting_power on the wire
+			t := bigTotal(vs)
+			cands := []int64{1, 2, 3, new(big.Int).Div(t, big.NewInt(2)).Int64(), new(big.Int).Div(t, big.NewInt(4)).Int64() + 1,
+				t.Int64() + 1, types.MaxTotalVotingPower, math.MaxInt64, -1, int64(1 + r.Intn(40))}
+			vopts += fmt.Sprintf(" tvp=%d", cands[r.Intn(len(cands))])
+		}
+		note(mutHist, "set decoded from proto"+map[bool]string{true: " with falsified total", false: ""}[strings.Contains(vopts, "tvp")])
+	}
+	if r.Intn(3) == 0 && protoCommitOK(h, rd, b, slots) {
+		copts = " via=proto"
+		note(mutHist, "commit decoded from proto")
+	}
+	ops := []string{valsOp(vs) + vopts, commitOp(h, rd, b, slots) + copts}
 	// full / light with matching and mismatching arguments
 	argChain, argBid, argH := chain, b, h
 	switch r.Intn(14) {
@@ -991,65 +1015,71 @@ func genCase(r *rand.Rand, maxN int) core.Case {
 		argH = h + 1
 		note(mutHist, "call: other height")
 	}
-	ops = append(ops, fmt.Sprintf("full chain=%s bid=%s h=%d", chainTok(argChain), argBid, argH))
-	ops = append(ops, fmt.Sprintf("light chain=%s bid=%s h=%d", chainTok(argChain), argBid, argH))
-
 	total := bigTotal(vs)
-	frac := func(against *big.Int, tot *big.Int) (uint64, uint64, string) {
-		u := func(x *big.Int) uint64 {
-			if x.Sign() < 0 || !x.IsUint64() {
-				return 1
-			}
-			return x.Uint64()
-		}
-		switch []int{0, 0, 1, 1, 2, 3, 4, 5, 6, 7, 7, 7, 8, 8, 9, 9, 10, 11, 12, 13, 14, 15, 15, 15}[r.Intn(24)] {
-		case 0:
-			return 1, 3, "1/3"
-		case 1:
-			return 2, 3, "2/3"
-		case 2:
-			return 1, 2, "1/2"
-		case 3:
-			return 1, 1, "1/1"
-		case 4:
-			return 0, 1, "0/1"
-		case 5:
-			return uint64(1 + r.Intn(3)), 0, "x/0"
-		case 6:
-			return 3, 2, "3/2"
-		case 7: // exactly at the boundary: got*den == total*num
-			return u(against), u(tot), "got/total (boundary)"
-		case 8: // just below the boundary
-			return u(new(big.Int).Sub(against, big.NewInt(1))), u(tot), "(got-1)/total"
-		case 9: // numerator at the safeMul overflow edge
-			t := tot
-			if t.Sign() <= 0 {
-				t = big.NewInt(1)
-			}
-			q := new(big.Int).Div(big.NewInt(math.MaxInt64), t)
-			q.Add(q, big.NewInt(int64(r.Intn(3)-1)))
-			return u(q), u(q) + uint64(r.Intn(3)), "num≈MaxInt64/total"
-		case 10:
-			return uint64(1<<63) + uint64(r.Intn(3)), uint64(1 + r.Intn(3)), "num≥2^63/small"
-		case 11:
-			return math.MaxUint64 - uint64(r.Intn(3)), uint64(1 + r.Intn(4)), "num≈2^64/small"
-		case 12:
-			return uint64(1 + r.Intn(3)), uint64(1<<63) + uint64(r.Intn(3)), "small/den≥2^63"
-		case 13:
-			return math.MaxUint64 - uint64(r.Intn(4)), math.MaxUint64 - uint64(r.Intn(4)), "both≈2^64"
-		case 14:
-			return uint64(1) << uint(r.Intn(64)), uint64(1) << uint(r.Intn(64)), "2^a/2^b"
-		}
-		return uint64(r.Intn(6)), uint64(1 + r.Intn(6)), "small random"
+	fullOp := func(ch string, bb bid, hh int64) string {
+		return fmt.Sprintf("full chain=%s bid=%s h=%d", chainTok(ch), bb, hh)
 	}
-	for k := 0; k < 2; k++ {
-		nu, de, nm := frac(signed, total)
+	lightOp := func(ch string, bb bid, hh int64) string {
+		return fmt.Sprintf("light chain=%s bid=%s h=%d", chainTok(ch), bb, hh)
+	}
+	trustOp := func(ch string, against, tot *big.Int) string {
+		nu, de, nm := pickFrac(r, against, tot)
 		note(fracHist, nm)
-		tc := chain
-		if r.Intn(20) == 0 {
-			tc = "B"
+		return fmt.Sprintf("trusting chain=%s num=%d den=%d", chainTok(ch), nu, de)
+	}
+	tc := chain
+	if r.Intn(20) == 0 {
+		tc = "B"
+	}
+	calls := []string{fullOp(argChain, argBid, argH), lightOp(argChain, argBid, argH),
+		trustOp(tc, signed, total), trustOp(chain, signed, total)}
+	// the three entry points in any order, some of them repeated, all on the same set object
+	if r.Intn(3) == 0 {
+		r.Shuffle(len(calls), func(a, b int) { calls[a], calls[b] = calls[b], calls[a] })
+		for k := r.Intn(3); k > 0; k-- {
+			calls = append(calls, calls[r.Intn(len(calls))])
 		}
-		ops = append(ops, fmt.Sprintf("trusting chain=%s num=%d den=%d", chainTok(tc), nu, de))
+		note(mutHist, "calls shuffled/repeated")
+	}
+	ops = append(ops, calls...)
+
+	// multi-step on the same set object: the SAME signature list relabelled to another
+	// block / height / round (and back), verified after the genuine commit was
+	if r.Intn(3) == 0 && len(slots) > 0 {
+		h2, rd2, b2 := h, rd, b
+		for h2 == h && rd2 == rd && b2.eq(b) {
+			switch r.Intn(3) {
+			case 0:
+				h2 = h + int64(1+r.Intn(3))
+			case 1:
+				rd2 = rd + int32(1+r.Intn(2))
+			case 2:
+				b2 = bidPool[r.Intn(len(bidPool))]
+			}
+		}
+		note(mutHist, "same signature list relabelled (height/round/block) after the genuine commit")
+		genuine := []string{fullOp(chain, b, h), lightOp(chain, b, h)}
+		if r.Intn(2) == 0 { // make sure the genuine commit was just verified on this object
+			ops = append(ops, genuine[r.Intn(2)])
+		}
+		ops = append(ops, commitOp(h2, rd2, b2, slots))
+		forged := []string{fullOp(chain, b2, h2), lightOp(chain, b2, h2), trustOp(chain, signed, total)}
+		r.Shuffle(len(forged), func(a, b int) { forged[a], forged[b] = forged[b], forged[a] })
+		ops = append(ops, forged...)
+		if r.Intn(2) == 0 { // other chain id with the same lists
+			ops = append(ops, fullOp("B", b2, h2))
+		}
+		if r.Intn(2) == 0 { // back to the genuine one, then a commit with one slot changed
+			ops = append(ops, commitOp(h, rd, b, slots), genuine[0], genuine[1])
+			if len(slots) > 0 {
+				sl := append([]slot{}, slots...)
+				i := r.Intn(len(sl))
+				sl[i].d = desc{tag: "J"}
+				ops = append(ops, commitOp(h, rd, b, sl), genuine[0], genuine[1])
+			}
+		}
+		// restore the genuine commit for what follows
+		ops = append(ops, commitOp(h, rd, b, slots)+copts)
 	}
 
 	// a different (trusted) validator set overlapping the signers
@@ -1073,18 +1103,240 @@ func genCase(r *rand.Rand, maxN int) core.Case {
 			tv = append(tv, val{poolAddr[kk], kk, int64(1 + r.Intn(20))})
 		}
 		r.Shuffle(len(tv), func(a, b int) { tv[a], tv[b] = tv[b], tv[a] })
-		ops = append(ops, valsOp(tv))
+		to := ""
+		if r.Intn(3) == 0 && protoSetOK(tv) {
+			to = fmt.Sprintf(" via=proto tvp=%d", []int64{0, 1, 5, bigTotal(tv).Int64() / 3}[r.Intn(4)])
+		}
+		ops = append(ops, valsOp(tv)+to)
 		for k := 0; k < 2; k++ {
-			nu, de, nm := frac(got, bigTotal(tv))
-			note(fracHist, nm)
-			ops = append(ops, fmt.Sprintf("trusting chain=%s num=%d den=%d", chainTok(chain), nu, de))
+			ops = append(ops, trustOp(chain, got, bigTotal(tv)))
 		}
 		if r.Intn(3) == 0 {
-			ops = append(ops, fmt.Sprintf("full chain=%s bid=%s h=%d", chainTok(chain), b, h))
-			ops = append(ops, fmt.Sprintf("light chain=%s bid=%s h=%d", chainTok(chain), b, h))
+			ops = append(ops, fullOp(chain, b, h), lightOp(chain, b, h))
 		}
 	}
 	return core.Case{Kind: "commit/" + pk, Ops: ops}
+}
+
+// pickFrac chooses a trust level; `against` is the power the generator intends to qualify and
+// `tot` the set's total, so that exactly-at and just-below the boundary are common.
+func pickFrac(r *rand.Rand, against *big.Int, tot *big.Int) (uint64, uint64, string) {
+	u := func(x *big.Int) uint64 {
+		if x.Sign() < 0 || !x.IsUint64() {
+			return 1
+		}
+		return x.Uint64()
+	}
+	switch []int{0, 0, 1, 1, 2, 3, 4, 5, 6, 7, 7, 7, 8, 8, 9, 9, 10, 11, 12, 13, 14, 15, 15, 15}[r.Intn(24)] {
+	case 0:
+		return 1, 3, "1/3"
+	case 1:
+		return 2, 3, "2/3"
+	case 2:
+		return 1, 2, "1/2"
+	case 3:
+		return 1, 1, "1/1"
+	case 4:
+		return 0, 1, "0/1"
+	case 5:
+		return uint64(1 + r.Intn(3)), 0, "x/0"
+	case 6:
+		return 3, 2, "3/2"
+	case 7: // exactly at the boundary: got*den == total*num
+		return u(against), u(tot), "got/total (boundary)"
+	case 8: // just below the boundary
+		return u(new(big.Int).Sub(against, big.NewInt(1))), u(tot), "(got-1)/total"
+	case 9: // numerator at the safeMul overflow edge
+		t := tot
+		if t.Sign() <= 0 {
+			t = big.NewInt(1)
+		}
+		q := new(big.Int).Div(big.NewInt(math.MaxInt64), t)
+		q.Add(q, big.NewInt(int64(r.Intn(3)-1)))
+		return u(q), u(q) + uint64(r.Intn(3)), "num≈MaxInt64/total"
+	case 10:
+		return uint64(1<<63) + uint64(r.Intn(3)), uint64(1 + r.Intn(3)), "num≥2^63/small"
+	case 11:
+		return math.MaxUint64 - uint64(r.Intn(3)), uint64(1 + r.Intn(4)), "num≈2^64/small"
+	case 12:
+		return uint64(1 + r.Intn(3)), uint64(1<<63) + uint64(r.Intn(3)), "small/den≥2^63"
+	case 13:
+		return math.MaxUint64 - uint64(r.Intn(4)), math.MaxUint64 - uint64(r.Intn(4)), "both≈2^64"
+	case 14:
+		return uint64(1) << uint(r.Intn(64)), uint64(1) << uint(r.Intn(64)), "2^a/2^b"
+	}
+	return uint64(r.Intn(6)), uint64(1 + r.Intn(6)), "small random"
+}
+
+// protoSetOK / protoCommitOK: does the value survive ToProto -> FromProto on this tree? (the
+// `via=proto` form is only generated for values that decode; the model treats decoding as the
+// identity on them, which is what the property needs: a decoded set is the set)
+func protoSet(vs []val, tvp *int64) (out *types.ValidatorSet, err error) {
+	defer func() {
+		if r := recover(); r != nil {
+			err = fmt.Errorf("panic: %v", r)
+		}
+	}()
+	if len(vs) == 0 {
+		return nil, fmt.Errorf("empty")
+	}
+	tv := make([]*types.Validator, len(vs))
+	for i, x := range vs {
+		tv[i] = &types.Validator{Address: x.addr, PubKey: pool[x.key].PubKey(), VotingPower: x.power}
+	}
+	set := &types.ValidatorSet{Validators: tv, Proposer: tv[0]}
+	pb, err := set.ToProto()
+	if err != nil {
+		return nil, err
+	}
+	if tvp != nil {
+		pb.TotalVotingPower = *tvp
+	}
+	// through the wire encoding as well
+	bz, err := pb.Marshal()
+	if err != nil {
+		return nil, err
+	}
+	pb2 := new(tmproto.ValidatorSet)
+	if err := pb2.Unmarshal(bz); err != nil {
+		return nil, err
+	}
+	return types.ValidatorSetFromProto(pb2)
+}
+
+func protoSetOK(vs []val) bool {
+	_, err := protoSet(vs, nil)
+	return err == nil
+}
+
+func realCommit(h int64, rd int32, b bid, slots []slot) *types.Commit {
+	sigs := make([]types.CommitSig, len(slots))
+	for i, s := range slots {
+		sigs[i] = types.CommitSig{BlockIDFlag: types.BlockIDFlag(s.flag), ValidatorAddress: s.addr,
+			Timestamp: tsTime(s.ts), Signature: sigBytes(s.d)}
+	}
+	return &types.Commit{Height: h, Round: rd, BlockID: b.real(), Signatures: sigs}
+}
+
+func protoCommit(cm *types.Commit) (out *types.Commit, err error) {
+	defer func() {
+		if r := recover(); r != nil {
+			err = fmt.Errorf("panic: %v", r)
+		}
+	}()
+	bz, err := cm.ToProto().Marshal()
+	if err != nil {
+		return nil, err
+	}
+	pb := new(tmproto.Commit)
+	if err := pb.Unmarshal(bz); err != nil {
+		return nil, err
+	}
+	return types.CommitFromProto(pb)
+}
+
+func protoCommitOK(h int64, rd int32, b bid, slots []slot) bool {
+	_, err := protoCommit(realCommit(h, rd, b, slots))
+	return err == nil
+}
+
+// genLargeTrusted: VerifyCommitLightTrusting against a trusted set that is LARGER than the commit,
+// the commit's slots signed by members sitting at arbitrary (low, middle, high) positions of the
+// trusted set, several of them repeated; levels at and around the distinct-member tally.
+func genLargeTrusted(r *rand.Rand, maxN int) core.Case {
+	m := 2 + r.Intn(maxN)
+	if r.Intn(4) != 0 && m > 9 {
+		m = 2 + r.Intn(8)
+	}
+	keys := r.Perm(poolSize)[:m]
+	powers, pk := genPowers(r, m)
+	note(powHist, "large-trusted/"+pk)
+	tv := make([]val, m)
+	for i := range tv {
+		tv[i] = val{poolAddr[keys[i]], keys[i], powers[i]}
+	}
+	chain, h, rd, b := "A", int64(1+r.Intn(5)), int32(r.Intn(2)), bidPool[r.Intn(len(bidPool))]
+	k := 1 + r.Intn(m) // slots; mostly fewer than members
+	if r.Intn(5) == 0 {
+		k = m + r.Intn(3)
+	}
+	mk := func(j int) slot {
+		ts := pickTS(r)
+		return slot{2, tv[j].addr, ts, desc{"V", tv[j].key, chain, 2, h, rd, b, ts}}
+	}
+	slots := make([]slot, 0, k)
+	seen := map[int]bool{}
+	distinct := new(big.Int)
+	dupAt := -1
+	if r.Intn(4) != 0 { // the signer that will be repeated: low / middle / high / >= len(commit)
+		switch r.Intn(4) {
+		case 0:
+			dupAt = 0
+		case 1:
+			dupAt = m - 1
+		case 2:
+			dupAt = r.Intn(m)
+		case 3:
+			if k < m {
+				dupAt = k + r.Intn(m-k)
+			} else {
+				dupAt = m - 1
+			}
+		}
+	}
+	for len(slots) < k {
+		j := r.Intn(m)
+		switch {
+		case dupAt >= 0 && (len(slots) == 0 || r.Intn(3) == 0):
+			j = dupAt
+		case r.Intn(6) == 0: // stranger, nil vote or absent in between
+			switch r.Intn(3) {
+			case 0:
+				kk := r.Intn(poolSize)
+				ts := pickTS(r)
+				slots = append(slots, slot{2, poolAddr[kk], ts, desc{"V", kk, chain, 2, h, rd, b, ts}})
+			case 1:
+				ts := pickTS(r)
+				slots = append(slots, slot{3, tv[j].addr, ts, desc{"V", tv[j].key, chain, 2, h, rd, bid{}, ts}})
+			default:
+				slots = append(slots, slot{1, nil, zeroTS, desc{tag: "E"}})
+			}
+			continue
+		}
+		slots = append(slots, mk(j))
+		if !seen[j] {
+			seen[j] = true
+			distinct.Add(distinct, big.NewInt(tv[j].power))
+		}
+	}
+	if dupAt >= 0 {
+		note(mutHist, "large trusted set: repeated signer")
+	}
+	vo := ""
+	if r.Intn(4) == 0 && protoSetOK(tv) {
+		vo = " via=proto"
+	}
+	ops := []string{valsOp(tv) + vo, commitOp(h, rd, b, slots)}
+	tot := bigTotal(tv)
+	for c := 0; c < 3; c++ {
+		nu, de, nm := pickFrac(r, distinct, tot)
+		if c == 0 { // the level the distinct members reach exactly: must be rejected
+			nu, de, nm = pickFracBoundary(distinct, tot)
+		}
+		note(fracHist, nm)
+		ops = append(ops, fmt.Sprintf("trusting chain=%s num=%d den=%d", chain, nu, de))
+	}
+	if r.Intn(4) == 0 {
+		ops = append(ops, fmt.Sprintf("light chain=%s bid=%s h=%d", chain, b, h), fmt.Sprintf("full chain=%s bid=%s h=%d", chain, b, h))
+	}
+	return core.Case{Kind: "trusting-large-set", Ops: ops}
+}
+
+func pickFracBoundary(against, tot *big.Int) (uint64, uint64, string) {
+	if against.Sign() <= 0 || tot.Sign() <= 0 || !against.IsUint64() || !tot.IsUint64() {
+		return 1, 1, "1/1"
+	}
+	return against.Uint64(), tot.Uint64(), "got/total (boundary)"
 }
 
 // hostile / malformed lines: both sides must answer bad-op
